@@ -77,7 +77,12 @@ pub fn execute(c: &DCase, tag: &str, pause_ms: u64) -> Result<Run, String> {
                 if *triplets && pause_ms > 0 {
                     std::thread::sleep(std::time::Duration::from_millis(pause_ms));
                 }
-                let bytes = payload.materialise();
+                let mut bytes = payload.materialise();
+                if *rich && std::str::from_utf8(&bytes).is_ok() {
+                    // several distinct date strings: the date extractor's output (content_dates, the
+                    // derived search text) must come out the same way in every execution
+                    bytes.extend_from_slice(format!(" Recorded in 1987, 1999, 2004 and 2013; revised 03/04/2011 and on September {}, 2021.", 1 + i % 27).as_bytes());
+                }
                 let o = options(i, *ts, *named, *title, *tag, *rich, *triplets);
                 match emb {
                     Some(s) => mem.put_with_embedding_and_options(&bytes, crate::gen::embedding(*s, dim), o),
